@@ -6,9 +6,15 @@ func init() {
 	generators["C03"] = func(p *pg) (Config, Plan) { return p.genCrash("C03") }
 	generators["C04"] = func(p *pg) (Config, Plan) { return p.genCrash("C04") }
 	generators["C13"] = func(p *pg) (Config, Plan) {
-		if p.r.Intn(3) == 0 {
+		switch p.r.Intn(4) {
+		case 0:
 			// readers pinning old state across truncations (no crashes)
 			return p.genC06("C13")
+		case 1:
+			// I/O errors instead of crashes: a failed creation / deletion / metadata
+			// commit (also one whose effect landed) must not lead to an ID or file
+			// name being handed out twice, nor to files surviving the next Open
+			return p.genErr("C13")
 		}
 		return p.genCrash("C13")
 	}
@@ -63,6 +69,9 @@ func (p *pg) genCrash(profile string) (Config, Plan) {
 	}
 	if profile == "C02" && p.r.Intn(3) == 0 {
 		return c, p.tornCycles(&c)
+	}
+	if (profile == "C01" || profile == "C02" || profile == "C04") && p.r.Intn(16) == 0 {
+		return c, p.bigBatches(&c)
 	}
 	if profile != "C02" && profile != "C09" && p.r.Intn(25) == 0 {
 		// the real metadb.BoltMetaDB + bbolt (on tmpfs) behind the seam wrapper:
@@ -146,5 +155,66 @@ func (p *pg) tornCycles(c *Config) Plan {
 		plan.Ops = append(plan.Ops, op)
 	}
 	plan.Ops = append(plan.Ops, small(1))
+	return plan
+}
+
+// bigBatches: a few batches of hundreds of KiB to several MiB (many write-buffer
+// and read-buffer sizes over, several per segment or larger than one), each hit
+// by a power loss inside its write or fsync, so that what decides is which
+// sectors of ONE large batch landed: a batch must stay all-or-nothing and
+// CRC-protected whatever its size ("every batch-size combination"). Granules are
+// sector-sized to keep the torn images tractable.
+func (p *pg) bigBatches(c *Config) Plan {
+	c.SegSize = []int{1 << 20, 4 << 20, 8 << 20}[p.r.Intn(3)]
+	c.Granule = []int{512, 4096, 4096, 64}[p.r.Intn(4)]
+	c.FirstIndex = []uint64{1, 1, 2, 1000}[p.r.Intn(4)]
+	c.Strict = false
+	c.Meta = "sim"
+	var plan Plan
+	small := func() OpSpec {
+		n := 1 + p.r.Intn(2)
+		op := OpSpec{Kind: "append", N: n}
+		for i := 0; i < n; i++ {
+			op.Sizes = append(op.Sizes, []int{8, 40, 1000}[p.r.Intn(3)])
+			op.Ext = append(op.Ext, 0)
+		}
+		return op
+	}
+	big := func() OpSpec {
+		n := 2 + p.r.Intn(4)
+		op := OpSpec{Kind: "append", N: n}
+		total := 0
+		for i := 0; i < n; i++ {
+			sz := []int{70000, 200000, 400000, 400000, 700000, 1100000, 2200000}[p.r.Intn(7)]
+			if total+sz > 5<<20 {
+				sz = 1000
+			}
+			total += sz
+			op.Sizes = append(op.Sizes, sz+p.r.Intn(9))
+			op.Ext = append(op.Ext, 0)
+		}
+		return op
+	}
+	for i := p.r.Intn(3); i > 0; i-- {
+		plan.Ops = append(plan.Ops, small())
+	}
+	nb := 1 + p.r.Intn(3)
+	for i := 0; i < nb; i++ {
+		op := big()
+		if i == 0 || p.r.Intn(2) == 0 {
+			op.Fault = &FaultSpec{Class: "power", Target: []string{"WriteAt", "WriteAt", "Sync", ""}[p.r.Intn(4)], K: p.r.Pick([]int{60, 25, 10, 5}), When: []string{"before", "after", "after", "mid", "mid"}[p.r.Intn(5)]}
+			if p.r.Intn(6) == 0 {
+				op.Fault.Class = "crash"
+			}
+		}
+		plan.Ops = append(plan.Ops, op)
+		if p.r.Intn(3) == 0 {
+			plan.Ops = append(plan.Ops, small())
+		}
+		if p.r.Intn(5) == 0 {
+			plan.Ops = append(plan.Ops, p.deleteOp("deltail"))
+		}
+	}
+	plan.Ops = append(plan.Ops, small())
 	return plan
 }
